@@ -5,5 +5,6 @@ MaxThreads = 2
 Cap = 1
 AllowRetire = TRUE
 FixRetire = TRUE
+FixReset = TRUE
 INVARIANTS AtMostOnce JoinAfterDone QueueOK
 CONSTANT defaultInitValue = defaultInitValue
